@@ -365,7 +365,26 @@ def audit(prop):
     ok, out = lake_build(mods)
     res['log'] = out[-6000:]
     if not ok:
-        res['failed'] = [(t, 'module does not build') for t in thms]
+        # name the declarations that no longer check: every "file:line:col: error" is attributed
+        # to the nearest preceding theorem/def/example in that file
+        culprits = []
+        for m in re.finditer(r'error: (\S+\.lean):(\d+):\d+: (.*)', out):
+            f, ln, msg = m.group(1), int(m.group(2)), m.group(3)
+            path = f if os.path.isabs(f) else os.path.join(LEAN, f)
+            name = '?'
+            try:
+                src_lines = open(path, encoding='utf-8').read().split('\n')
+                for i in range(min(ln, len(src_lines)) - 1, -1, -1):
+                    mm = re.match(r'\s*(?:@\[[^\]]*\]\s*)?(?:private\s+|protected\s+)?(theorem|lemma|def|example|instance|abbrev)\s+([^\s:({\[]+)?', src_lines[i])
+                    if mm:
+                        name = (mm.group(2) or mm.group(1))
+                        break
+            except OSError:
+                pass
+            culprits.append('%s (%s:%d: %s)' % (name, os.path.basename(f), ln, msg[:120]))
+        res['culprits'] = culprits[:20]
+        why = 'module does not build' + ('; failing declarations: ' + '; '.join(culprits[:6]) if culprits else '')
+        res['failed'] = [(t, why) for t in thms]
         return res
     res['build_ok'] = True
     os.makedirs(WORK, exist_ok=True)
